@@ -106,6 +106,32 @@ shutil.rmtree(top)
 sys.exit(1 if (got != want or len(set(got)) != len(got)) else 0)
 '''
 
+REPLAY_WINDOW = '''
+import os, tempfile, shutil, sys, datetime
+from checks.ch import listing as H           # H.L is the real list_drf module of the tree under test
+kw = %r
+def mk(w, off, aware):
+    return datetime.datetime(1970, 1, 1, tzinfo=datetime.timezone(datetime.timedelta(seconds=off)) if aware else None) + datetime.timedelta(seconds=w)
+st = mk(kw.get('ws', 0), kw.get('offs', 0), kw.get('aws', False)) if kw.get('has_s', False) else None
+en = mk(kw.get('we', 0), kw.get('offe', 0), kw.get('awe', False)) if kw.get('has_e', False) else None
+top = tempfile.mkdtemp(); ch = os.path.join(top, 'ch'); os.makedirs(ch); open(os.path.join(ch, 'drf_properties.h5'), 'w').close()
+rec = []
+orig = H.L._yield_matching_files
+def spy(root, dirs, props, a, b, starttime=None, endtime=None, reverse=False):
+    rec.append((starttime, endtime)); return orig(root, dirs, props, a, b, starttime=starttime, endtime=endtime, reverse=reverse)
+H.L._yield_matching_files = spy
+try:
+    list(H.L.ilsdrf(top, starttime=st, endtime=en))
+finally:
+    H.L._yield_matching_files = orig; shutil.rmtree(top)
+es = None if st is None else datetime.timedelta(seconds=kw.get('ws', 0) - (kw.get('offs', 0) if kw.get('aws') else 0))
+ee = None if en is None else datetime.timedelta(seconds=kw.get('we', 0) - (kw.get('offe', 0) if kw.get('awe') else 0))
+print('window handed to the channel listing:', rec, 'expected instants', (es, ee))
+sys.exit(1 if (not rec or any(r != (es, ee) for r in rec)) else 0)
+'''
+TITLES['_ilsdrf_window'] = ('ilsdrf: starttime / endtime datetimes (naive = UTC, aware with any UTC offset, or None) reach the per-channel listing as the '
+                            'instants they denote (seconds since the epoch)')
+
 for _si, _st in enumerate(('/t', '/t/chA', '/t/chA/2020-01-01T00-00-00')):
     for _rec in (1, 0):
         if _si == 0 and not _rec: continue
@@ -184,5 +210,6 @@ def main(tier):
                 nm = '_ilsdrf_tree_%d_%d_%d' % (si_, rec_, rev_)
                 replays[nm] = (lambda a, b, c: (lambda kw: REPLAY_TREE % (kw, a, bool(b), bool(c))))(st_, rec_, rev_)
                 sigs[nm] = 'C14.tree_walk'
+    replays['_ilsdrf_window'] = lambda kw: REPLAY_WINDOW % (kw,); sigs['_ilsdrf_window'] = 'C14.window_conversion'
     chx.report(rep, res, TITLES, replays=replays, sigs=sigs)
     return rep.finish()
